@@ -13,7 +13,16 @@
 //!    unterminated connections still open; a connection that has sent a complete request line is
 //!    answered or closed within 3 s whatever its neighbours do (sig `conn-unanswered`) — the
 //!    neighbours include connections that were opened FIRST and have sent nothing at all (`o<i>`,
-//!    `hold -`), on the TCP and on the HTTP listener (sig `http-server-wedged`).
+//!    `hold -`), on the TCP and on the HTTP listener (sig `http-server-wedged`); the library's
+//!    accept loops `tcp::start_server` / `http::start_server` themselves never return while the
+//!    database is being queried (sigs `server-stopped` / `http-server-stopped`: the task has
+//!    finished, the listener is gone and new clients are refused) — looked at before and after
+//!    every line that touches a socket, and whenever a probe client fails. The request lines
+//!    include the family "valid UTF-8 with one multi-byte character (2, 3, 4 bytes) starting at
+//!    every byte offset 0..=8" of the line, of the product and of the endpoint
+//!    (`utf8_boundary_family`), each sent alone (`conn`, then a well-formed probe from another
+//!    client), through `handle_command` (`cmd`), concurrently (`storm`) and inside schedules whose
+//!    other connections are mid-request or connect afterwards.
 //!
 //! A case is one database: `begin`, `rec`…, `load`, then queries. Request lines are interpreted,
 //! so a case file can be replayed verbatim (`--replay`).
@@ -87,11 +96,16 @@ fn parse_rec(t: &[&str]) -> Option<BuildRecord> {
     })
 }
 
+/// what `start_server` returned, once it has returned (it never should while the case runs)
+type ExitSlot = Arc<std::sync::Mutex<Option<String>>>;
+
 struct Live {
     state: Arc<AppState>,
     tcp: SocketAddr,
     http: SocketAddr,
+    /// [0] = the task running `tcp::start_server`, [1] = `http::start_server`
     tasks: Vec<tokio::task::JoinHandle<()>>,
+    exits: Vec<ExitSlot>,
     ribbit: RibbitClient,
     tact: TactClient,
     _dir: tempfile::TempDir,
@@ -112,6 +126,29 @@ struct Ctx {
     recs: Vec<BuildRecord>,
     live: Option<Live>,
     prelude: Vec<String>,
+    /// the last line that touched a socket (for the replay of a stop found before the next one)
+    last_net: Option<String>,
+}
+
+/// the library's accept loop in a task of its own; the slot records what it returned
+fn spawn_server(which: usize, addr: SocketAddr, state: Arc<AppState>) -> (tokio::task::JoinHandle<()>, ExitSlot) {
+    let slot: ExitSlot = Arc::default();
+    let sl = slot.clone();
+    let h = tokio::spawn(async move {
+        let r = if which == 0 {
+            cascette_ribbit::tcp::start_server(addr, state).await
+        } else {
+            cascette_ribbit::http::start_server(addr, state).await
+        };
+        let text = match r {
+            Ok(()) => "Ok(())".to_string(),
+            Err(e) => format!("Err({e})"),
+        };
+        if let Ok(mut g) = sl.lock() {
+            *g = Some(text);
+        }
+    });
+    (h, slot)
 }
 
 fn free_port() -> SocketAddr {
@@ -330,14 +367,85 @@ async fn raw_http(addr: SocketAddr, path: &str) -> Result<(u16, Vec<u8>), String
 
 async fn probe_ok(ctx: &Ctx) -> Result<(), String> {
     let live = ctx.live.as_ref().ok_or("no server")?;
-    let Some(p) = ctx.recs.iter().map(|r| r.product.clone()).find(|p| addressable_tcp(p)) else { return Ok(()) };
-    let cmd = format!("v2/products/{p}/cdns\r\n");
-    let fut = raw_tcp(live.tcp, cmd.as_bytes(), true);
+    // a product the database has, else the summary (every loaded database answers that one)
+    let (cmd, want): (String, &[u8]) = match ctx.recs.iter().map(|r| r.product.clone()).find(|p| addressable_tcp(p)) {
+        Some(p) => (format!("v2/products/{p}/cdns\r\n"), b"Name!STRING:0"),
+        None => ("v1/summary\r\n".to_string(), b"MIME-Version: 1.0"),
+    };
+    let fut = async {
+        // a refused connection (nobody listens any more) is told apart from a silent server
+        let mut k = TcpStream::connect(live.tcp).await.map_err(|e| format!("connect: {e}"))?;
+        let _ = k.write_all(cmd.as_bytes()).await;
+        let _ = k.shutdown().await;
+        let mut out = vec![];
+        let _ = k.read_to_end(&mut out).await;
+        Ok::<Vec<u8>, String>(out)
+    };
     match tokio::time::timeout(Duration::from_secs(3), fut).await {
-        Ok(Ok(b)) if b.starts_with(b"Name!STRING:0") => Ok(()),
+        Ok(Ok(b)) if b.starts_with(want) => Ok(()),
         Ok(Ok(b)) => Err(format!("probe got {} bytes", b.len())),
         Ok(Err(e)) => Err(e),
         Err(_) => Err("probe timed out".into()),
+    }
+}
+
+/// reported `server-stopped` failures of this run (each names its own input; the first few are
+/// enough, the others are tallied)
+static STOPS: AtomicU32 = AtomicU32::new(0);
+
+/// O (`server-stopped` / `http-server-stopped`): the accept loops are still running. `wait`: a
+/// client has just failed — give a returning accept loop up to 300 ms to be seen. A server found
+/// stopped is reported (replay: the database and `replay_tail`) and started again on its port, so
+/// that the lines after it are judged on their own. Returns whether one had stopped.
+async fn ensure_alive(s: &mut Session, ctx: &mut Ctx, what: &str, replay_tail: &[String], wait: bool) -> bool {
+    let Some(live) = ctx.live.as_mut() else { return false };
+    if wait {
+        for _ in 0..60 {
+            if live.tasks.iter().any(tokio::task::JoinHandle::is_finished) {
+                break;
+            }
+            tokio::time::sleep(Duration::from_millis(5)).await;
+        }
+    }
+    let mut any = false;
+    for which in 0..live.tasks.len().min(2) {
+        if !live.tasks[which].is_finished() {
+            continue;
+        }
+        any = true;
+        let ret = live.exits[which].lock().ok().and_then(|g| g.clone()).unwrap_or_else(|| "the task panicked".to_string());
+        let (sig, name, addr) = if which == 0 { ("server-stopped", "tcp::start_server", live.tcp) } else { ("http-server-stopped", "http::start_server", live.http) };
+        s.tally(&format!("oracle:{sig}"));
+        if STOPS.fetch_add(1, Ordering::Relaxed) < 8 {
+            let mut replay = ctx.prelude.clone();
+            replay.extend_from_slice(replay_tail);
+            let ret: String = ret.chars().take(300).collect();
+            wedge(s, sig, &format!("{what}: {name} has returned {ret} — its listener is gone, every later client is refused"), &replay);
+        }
+        // start it again so that the following lines meet a server
+        let (h, e) = spawn_server(which, addr, live.state.clone());
+        live.tasks[which] = h;
+        live.exits[which] = e;
+        wait_port(addr).await;
+    }
+    any
+}
+
+/// O after a line that touched the TCP listener: a fresh client (another connection) sending a
+/// well-formed request is answered within 3 s (`server-wedged`), and the accept loop has not
+/// returned (`server-stopped`)
+async fn probe_after(s: &mut Session, ctx: &mut Ctx, what: &str, line: &str) {
+    let tail = [line.to_string()];
+    match probe_ok(ctx).await {
+        Ok(()) => {
+            ensure_alive(s, ctx, what, &tail, false).await;
+        }
+        Err(e) => {
+            let what = format!("{what} the probe client failed ({e})");
+            if !ensure_alive(s, ctx, &what, &tail, true).await {
+                wedge(s, "server-wedged", &what, &case_replay(ctx, line));
+            }
+        }
     }
 }
 
@@ -471,7 +579,25 @@ fn oracle_query(
     }
 }
 
+/// one request line; around every line that touches a socket: O `server-stopped` (the accept
+/// loops have not returned — before it, so that a stop is never blamed on the wrong line, and
+/// after it)
 async fn run_line(s: &mut Session, ctx: &mut Ctx, line: &str) {
+    let op = line.split(' ').next().unwrap_or("");
+    let net = matches!(op, "conn" | "hold" | "storm" | "sched" | "http" | "client" | "clientx" | "clientsum");
+    if net && ctx.live.is_some() {
+        let mut tail: Vec<String> = ctx.last_net.iter().cloned().collect();
+        tail.push(line.to_string());
+        ensure_alive(s, ctx, "found before this line was sent (stopped by the line before it, or on its own)", &tail, false).await;
+    }
+    run_line_inner(s, ctx, line).await;
+    if net && ctx.live.is_some() {
+        ensure_alive(s, ctx, "after this line", &[line.to_string()], false).await;
+        ctx.last_net = Some(line.to_string());
+    }
+}
+
+async fn run_line_inner(s: &mut Session, ctx: &mut Ctx, line: &str) {
     let toks: Vec<&str> = line.split(' ').collect();
     s.tally(&format!("op:{}", toks[0]));
     match toks.as_slice() {
@@ -515,19 +641,14 @@ async fn run_line(s: &mut Session, ctx: &mut Ctx, line: &str) {
                 Ok(st) => {
                     let state = Arc::new(st);
                     let order: Vec<String> = state.database().products().iter().map(|p| hx(p)).collect();
-                    let (s1, s2) = (state.clone(), state.clone());
-                    let t1 = tokio::spawn(async move {
-                        let _ = cascette_ribbit::tcp::start_server(tcp, s1).await;
-                    });
-                    let t2 = tokio::spawn(async move {
-                        let _ = cascette_ribbit::http::start_server(http, s2).await;
-                    });
+                    let (t1, e1) = spawn_server(0, tcp, state.clone());
+                    let (t2, e2) = spawn_server(1, http, state.clone());
                     wait_port(tcp).await;
                     wait_port(http).await;
                     let req = format!("load {}", order.join(","));
                     let resp = format!("ok products={} total={}", order.len(), state.database().total_builds());
                     ctx.live = Some(Live {
-                        state, tcp, http, tasks: vec![t1, t2],
+                        state, tcp, http, tasks: vec![t1, t2], exits: vec![e1, e2],
                         ribbit: RibbitClient::new(format!("{tcp}")).expect("ribbit client"),
                         tact: TactClient::new(format!("http://{http}"), false).expect("tact client"),
                         _dir: dir,
@@ -596,9 +717,7 @@ async fn run_line(s: &mut Session, ctx: &mut Ctx, line: &str) {
             if r.is_err() {
                 s.oracle_fail("server-no-close", "connection neither answered nor closed within 8 s", &case_replay(ctx, &req));
             }
-            if let Err(e) = probe_ok(ctx).await {
-                wedge(s, "server-wedged", &format!("after a request of {} bytes the probe client failed: {e}", b.len()), &case_replay(ctx, &req));
-            }
+            probe_after(s, ctx, &format!("after a request of {} bytes ({:?})", b.len(), String::from_utf8_lossy(&b[..b.len().min(60)])), &req).await;
             s.case(Some(&req));
         }
         ["hold", b] | ["hold", b, _] => {
@@ -635,11 +754,18 @@ async fn run_line(s: &mut Session, ctx: &mut Ctx, line: &str) {
             let okh = probe_http_ok(ctx).await;
             s.line(line, "pending");
             let what = if b.is_empty() { "connections that have sent nothing at all".to_string() } else { format!("unterminated requests of {} bytes", b.len()) };
+            let tail = [line.to_string()];
             if let Err(e) = ok {
-                wedge(s, "server-wedged", &format!("with {n} {what} open (opened before it) the probe client failed: {e}"), &case_replay(ctx, line));
+                let w = format!("with {n} {what} open (opened before it) the probe client failed: {e}");
+                if !ensure_alive(s, ctx, &w, &tail, true).await {
+                    wedge(s, "server-wedged", &w, &case_replay(ctx, line));
+                }
             }
             if let Err(e) = okh {
-                wedge(s, "http-server-wedged", &format!("with {n} {what} open on the HTTP listener (opened before it) the HTTP probe client failed: {e}"), &case_replay(ctx, line));
+                let w = format!("with {n} {what} open on the HTTP listener (opened before it) the HTTP probe client failed: {e}");
+                if !ensure_alive(s, ctx, &w, &tail, true).await {
+                    wedge(s, "http-server-wedged", &w, &case_replay(ctx, line));
+                }
             }
             // the held sockets were open during the probes (none was closed by the server for
             // being silent: that takes the 10 s read timeout)
@@ -682,9 +808,7 @@ async fn run_line(s: &mut Session, ctx: &mut Ctx, line: &str) {
             if !consistent || resp.iter().any(|x| x == "failed") {
                 s.oracle_fail("storm-inconsistent", &format!("concurrent identical requests were answered differently: {resp:?}"), &case_replay(ctx, line));
             }
-            if let Err(e) = probe_ok(ctx).await {
-                wedge(s, "server-wedged", &format!("after a storm the probe client failed: {e}"), &case_replay(ctx, line));
-            }
+            probe_after(s, ctx, "after a storm", line).await;
             s.case(Some(line));
         }
         ["sched", evs] => {
@@ -789,19 +913,28 @@ async fn run_line(s: &mut Session, ctx: &mut Ctx, line: &str) {
                 );
             }
             // O: the server goes on answering while the unterminated connections are still open
-            if let Err(e) = probe_ok(ctx).await {
-                wedge(s, "server-wedged", &format!("with the schedule's connections open (held without a line end: [{held}]) the probe client failed: {e}"), &case_replay(ctx, line));
-            }
+            probe_after(s, ctx, &format!("with the schedule's connections open (held without a line end: [{held}])"), line).await;
             // O (isolation): every answered connection got what its own bytes get alone
             for (i, c) in &conns {
                 let Some(got) = &c.result else { continue };
                 if c.saw_timeout && timed {
                     continue; // closed by the read timeout: a lone replay with a half-close differs by design
                 }
-                let alone = match raw_tcp(addr, &c.sent, true).await {
+                let mut alone = match raw_tcp(addr, &c.sent, true).await {
                     Ok(o) => canon_reply(&o),
                     Err(e) => format!("err:{e}"),
                 };
+                if alone.starts_with("err:") || alone != *got {
+                    // nobody listening? then that is the finding (reported once, with this line),
+                    // and this connection's bytes are tried again on the restarted server
+                    let w = format!("while connection {i}'s {} bytes were sent alone (answered {alone})", c.sent.len());
+                    if ensure_alive(s, ctx, &w, &[line.to_string()], true).await {
+                        alone = match raw_tcp(addr, &c.sent, true).await {
+                            Ok(o) => canon_reply(&o),
+                            Err(e) => format!("err:{e}"),
+                        };
+                    }
+                }
                 if &alone != got {
                     s.oracle_fail(
                         "conn-not-isolated",
@@ -826,6 +959,15 @@ async fn run_line(s: &mut Session, ctx: &mut Ctx, line: &str) {
                 Err(e) => (0, format!("err:{e}")),
             };
             s.line(&format!("http {sq} {}", hx(&p)), &resp);
+            if !resp.starts_with("200") {
+                // O: a path that is not answered leaves the HTTP server answering other clients
+                if let Err(e) = probe_http_ok(ctx).await {
+                    let w = format!("after GET {p:?} (answered {resp}) the HTTP probe client failed: {e}");
+                    if !ensure_alive(s, ctx, &w, &[line.to_string()], true).await {
+                        wedge(s, "http-server-wedged", &w, &case_replay(ctx, line));
+                    }
+                }
+            }
             s.case(if resp.starts_with("200") { Some(line) } else { None });
         }
         ["parse", t] => {
@@ -1327,6 +1469,149 @@ fn gen_sched_held_first(rng: &mut Rng, products: &[String], v: usize) -> String 
     format!("sched {}", out.join(","))
 }
 
+/// one character of each UTF-8 width above 1: 2 bytes, 3 bytes, 4 bytes
+const MULTIBYTE: [&str; 3] = ["\u{e9}", "\u{20ac}", "\u{1F600}"];
+
+/// `text` with `c` inserted at byte offset `k` (`text` is ASCII up to there)
+fn insert_at(text: &str, k: usize, c: &str) -> String {
+    let k = k.min(text.len());
+    format!("{}{c}{}", &text[..k], &text[k..])
+}
+
+/// Request lines (without line end) that are VALID UTF-8 and carry one multi-byte character —
+/// 2, 3 and 4 bytes wide — starting at every byte offset 0..=8, so that every small byte offset
+/// 1..=11 falls inside a character in some member:
+///  * `line`:     inserted into the well-formed `{ver}/products/{p}/versions` (offset in the line:
+///                the version prefix, the separators, the word `products`),
+///  * `short`:    the first k bytes of that line and then the character, nothing after it (lines
+///                shorter than any fixed prefix length, ending in a wide character),
+///  * `product`:  inserted at offset 0..=8 of the product name,
+///  * `endpoint`: inserted at offset 0..=8 of the endpoint name (8 = after its last byte),
+/// each for v1 and v2; and `far` (below): at the powers of two up to 1024. None is a well-formed request for something the database has (with the
+/// character removed most are), so each must be closed without a reply — and nothing else.
+/// `p`: an ASCII product name without '/', `long`: one of at least 8 bytes.
+fn utf8_boundary_family(p: &str, long: &str) -> Vec<(String, Vec<u8>)> {
+    let mut v = vec![];
+    for ver in ["v1", "v2"] {
+        let base = format!("{ver}/products/{p}/versions");
+        for (w, c) in MULTIBYTE.iter().enumerate() {
+            for k in 0..=8usize {
+                v.push((format!("line:{ver}:w{}:k{k}", w + 2), insert_at(&base, k, c).into_bytes()));
+                v.push((format!("short:{ver}:w{}:k{k}", w + 2), format!("{}{c}", &base[..k]).into_bytes()));
+                v.push((format!("product:{ver}:w{}:k{k}", w + 2), format!("{ver}/products/{}/cdns", insert_at(long, k, c)).into_bytes()));
+                v.push((format!("endpoint:{ver}:w{}:k{k}", w + 2), format!("{ver}/products/{p}/{}", insert_at("versions", k, c)).into_bytes()));
+            }
+        }
+    }
+    // `far` / `farp`: the character starts 2, 1, 0 bytes before a power of two from 16 to 1024 of
+    // the line / of the product name (a long product name made of `a`s in front of it), so that
+    // those byte offsets fall inside it too
+    for (w, c) in MULTIBYTE.iter().enumerate() {
+        for e in 4..=10u32 {
+            for back in 0..=2usize {
+                let k = (1usize << e) - back;
+                v.push((format!("far:v1:w{}:k{k}", w + 2), format!("v1/products/{}{c}/versions", "a".repeat(k - 12)).into_bytes()));
+                // … and the same offsets counted from the start of the product name
+                v.push((format!("farp:v2:w{}:k{k}", w + 2), format!("v2/products/{}{c}b/cdns", "a".repeat(k)).into_bytes()));
+            }
+        }
+    }
+    v
+}
+
+/// the ASCII product names the family is built around: one the database has if it has an ASCII
+/// one (the members are then near misses of an answerable request), and one of >= 8 bytes
+fn family_products(products: &[String]) -> (String, String) {
+    let ascii: Vec<&String> = products.iter().filter(|p| addressable_tcp(p) && p.is_ascii()).collect();
+    let p = ascii.first().map_or_else(|| "wow".to_string(), |p| (*p).clone());
+    let long = ascii.iter().find(|p| p.len() >= 8).map_or_else(|| "wow_classic".to_string(), |p| (*p).clone());
+    (p, long)
+}
+
+/// A schedule around members `from..from+n` of `utf8_boundary_family`: connection 0 is in the
+/// middle of a well-formed request when they arrive (it completes it at the end and must be
+/// answered), every member travels on a connection of its own — whole, or cut at any byte, also
+/// inside the wide character; terminated by CRLF / LF, or left open and ended by a half-close —
+/// merged at random with clients that send well-formed requests, and one more well-formed client
+/// connects after all of them.
+fn gen_sched_utf8(rng: &mut Rng, products: &[String], from: usize, n: usize) -> String {
+    let (p, long) = family_products(products);
+    let fam = utf8_boundary_family(&p, &long);
+    let good: Vec<String> = products.iter().filter(|p| addressable_tcp(p)).cloned().collect();
+    let request = |rng: &mut Rng| -> Vec<u8> {
+        if good.is_empty() || rng.chance(1, 6) {
+            return b"v1/summary".to_vec();
+        }
+        let p = rng.pick(&good).clone();
+        format!("{}/products/{p}/{}", *rng.pick(&["v1", "v2"]), *rng.pick(&["versions", "cdns", "bgdl"])).into_bytes()
+    };
+    let own = request(rng);
+    let own_cut = rng.range(1, own.len() as u64 - 1) as usize;
+    let mut out = vec![format!("d0:{}", hex(&own[..own_cut]))];
+    let mut scripts: Vec<Vec<String>> = vec![];
+    let mut next = 1usize;
+    for t in 0..n {
+        let (_, m) = &fam[(from + t) % fam.len()];
+        let i = next;
+        next += 1;
+        let mut sc = vec![];
+        let ending = rng.below(4);
+        let mut b = m.clone();
+        match ending {
+            0 | 1 => b.extend_from_slice(b"\r\n"),
+            2 => b.push(b'\n'),
+            _ => {}
+        }
+        // any byte position, also inside the character
+        let cut = rng.range(1, m.len() as u64 - 1) as usize;
+        if rng.chance(1, 2) {
+            sc.push(format!("d{i}:{}", hex(&b[..cut])));
+            sc.push(format!("d{i}:{}", hex(&b[cut..])));
+        } else {
+            sc.push(format!("d{i}:{}", hex(&b)));
+        }
+        if ending == 3 || rng.chance(1, 4) {
+            sc.push(format!("e{i}"));
+        }
+        sc.push(format!("r{i}"));
+        scripts.push(sc);
+        if t % 2 == 0 {
+            // a client with a well-formed request beside it
+            let i = next;
+            next += 1;
+            let mut b = request(rng);
+            b.extend_from_slice(*rng.pick(&[&b"\r\n"[..], b"\n"]));
+            scripts.push(vec![format!("d{i}:{}", hex(&b)), format!("r{i}")]);
+        }
+    }
+    let mut pos = vec![0usize; scripts.len()];
+    loop {
+        let live: Vec<usize> = (0..scripts.len()).filter(|&k| pos[k] < scripts[k].len()).collect();
+        if live.is_empty() {
+            break;
+        }
+        let k = *rng.pick(&live);
+        out.push(scripts[k][pos[k]].clone());
+        pos[k] += 1;
+    }
+    // a client that connects after all of them
+    let mut b = request(rng);
+    b.extend_from_slice(b"\r\n");
+    out.push(format!("d{next}:{}", hex(&b)));
+    out.push(format!("r{next}"));
+    // and the one that was mid-request all along
+    let mut rest = own[own_cut..].to_vec();
+    rest.extend_from_slice(b"\r\n");
+    out.push(format!("d0:{}", hex(&rest)));
+    out.push("r0".into());
+    format!("sched {}", out.join(","))
+}
+
+/// `%XX` for every byte
+fn pct(c: &str) -> String {
+    c.bytes().map(|b| format!("%{b:02X}")).collect()
+}
+
 fn gen_case(rng: &mut Rng, idx: usize, thorough: bool, seed: u64) -> Vec<String> {
     let mut lines = vec![];
     let hosts = (*rng.pick(&["cdn.test.com", "a.example b.example", "  lead.example  x", "", "   ", "h|x", "cdn.arctium.tools", "é.example"])).to_string();
@@ -1451,6 +1736,81 @@ fn gen_case(rng: &mut Rng, idx: usize, thorough: bool, seed: u64) -> Vec<String>
         }
         _ => {}
     }
+    // once more a stream of its own: valid UTF-8 request lines with a wide character at small byte
+    // offsets. Every database: one schedule over the next slice of the family (the quick tier's
+    // 36 databases walk the whole family whatever the seed). Databases 0, 9, 18, 27, …: the whole
+    // family, every member alone on a connection followed by a well-formed probe from another
+    // client (`conn`) and through handle_command (`cmd`), a storm of members and well-formed
+    // requests, held prefixes that end inside a character, the real clients afterwards, and the
+    // HTTP analogue (percent-encoded, as a URL carries it).
+    let rng = &mut Rng::new(seed.wrapping_mul(0xa24b_aed4_963e_e407) ^ (idx as u64 + 0x07f8));
+    let (fp, flong) = family_products(&products);
+    let fam = utf8_boundary_family(&fp, &flong);
+    let per = fam.len().div_ceil(36);
+    if idx % 9 == 0 {
+        for (k, (_, m)) in fam.iter().enumerate() {
+            let mut b = m.clone();
+            match (k + idx / 9) % 5 {
+                0 | 1 | 2 => b.extend_from_slice(b"\r\n"),
+                3 => b.push(b'\n'),
+                _ => {} // no line end: the half-close ends the line
+            }
+            lines.push(format!("conn 0 {}", hex(&b)));
+        }
+        for (_, m) in &fam {
+            lines.push(format!("cmd 0 {}", hex(m)));
+        }
+        // blanks around a member: the offsets in the line and in the trimmed command differ
+        for (_, m) in fam.iter().filter(|(t, _)| t.starts_with("line:v1:") || t.starts_with("short:v2:")) {
+            let mut b = b"  ".to_vec();
+            b.extend_from_slice(m);
+            b.extend_from_slice(b"\t\r\n");
+            lines.push(format!("conn 0 {}", hex(&b)));
+        }
+        // several clients at once: members whose character lies across byte 1..=5, and
+        // well-formed requests
+        let mut mix: Vec<String> = fam
+            .iter()
+            .filter(|(t, _)| (t.starts_with("line:") || t.starts_with("short:")) && ["k0", "k1", "k2", "k3", "k4"].iter().any(|k| t.ends_with(k)))
+            .map(|(_, m)| {
+                let mut b = m.clone();
+                b.extend_from_slice(b"\r\n");
+                hex(&b)
+            })
+            .collect();
+        for p in products.iter().filter(|p| addressable_tcp(p)) {
+            mix.push(hex(format!("v2/products/{p}/cdns\r\n").as_bytes()));
+            mix.push(hex(format!("v1/products/{p}/versions\r\n").as_bytes()));
+        }
+        mix.push(hex(b"v1/summary\r\n"));
+        lines.push(format!("storm 2 {}", mix.join(",")));
+        // open lines that stop inside a character (first 1, 2, 3 bytes of a 4-byte one after a
+        // prefix of 0..=3 bytes)
+        for pre in 0..=3usize {
+            for part in 1..=3usize {
+                let mut b = b"v1/p"[..pre].to_vec();
+                b.extend_from_slice(&MULTIBYTE[2].as_bytes()[..part]);
+                lines.push(format!("hold {} 2", hex(&b)));
+            }
+        }
+        // the real clients still read the database's rows
+        for p in products.iter().filter(|p| addressable_tcp(p)) {
+            for tr in ["v1", "v2"] {
+                lines.push(format!("client {tr} {} {}", hx(p), *rng.pick(&["versions", "cdns", "bgdl"])));
+            }
+        }
+        lines.push("clientsum".into());
+        // HTTP: the same characters percent-encoded in the product and in the endpoint segment
+        let hp = asked.iter().find(|p| addressable_http(p)).cloned().unwrap_or_else(|| "wow".into());
+        let hlong = if hp.len() >= 8 { hp.clone() } else { "wow_classic".to_string() };
+        for c in MULTIBYTE {
+            for k in 0..=8usize {
+                lines.push(format!("http 0 {}", hx(&format!("/{}/versions", insert_at(&hlong, k, &pct(c))))));
+                lines.push(format!("http 0 {}", hx(&format!("/{hp}/{}", insert_at("versions", k, &pct(c))))));
+            }
+        }
+    }
+    lines.push(gen_sched_utf8(rng, &products, (idx % 36) * per, per));
     lines
 }
 
